@@ -57,8 +57,8 @@ Proof. exact full_sequences. Qed.
 Theorem C08_zero_prior_fixed :
   plain_cf float cfg_fixed w_zero_tuple = true /\ plain_cf float cfg_fixed w_zero_extra = true /\
   (exists n', dict_rt float ffalsy cfg_fixed w_zero_tuple = Ok n' /\
-     ival_eqb (inst_from_paths float fbin (tree float n') [(["h"; "a"]%string, 0.5%float)])
-              (inst_from_paths float fbin (tree float w_zero_tuple) [(["h"; "a"]%string, 0.5%float)]) = true) /\
+     ival_eqb (inst_from_paths float fbin funop (tree float n') [(["h"; "a"]%string, 0.5%float)])
+              (inst_from_paths float fbin funop (tree float w_zero_tuple) [(["h"; "a"]%string, 0.5%float)]) = true) /\
   (exists n', dict_rt float ffalsy cfg_fixed w_zero_extra = Ok n' /\
      snode_eqb (smap float (forget_f float) (norm float n')) (smap float (forget_f float) (norm float w_zero_extra)) = true).
 Proof. exact zero_prior_next. Qed.
@@ -82,7 +82,7 @@ Proof. exact equiv_count. Qed.
 (* supplying the same value for each path yields equal instances (fixed values, derived values, tuples included) *)
 Theorem C08_instance : forall (V : Type) (bin : binop -> V -> V -> V) (n n' : snode V) (pv : list (path * V)),
   equiv V n n' -> wf V (tree V n) ->
-  inst_from_paths V bin (tree V n') pv = inst_from_paths V bin (tree V n) pv.
+  inst_from_paths V bin un (tree V n') pv = inst_from_paths V bin un (tree V n) pv.
 Proof. exact equiv_instance. Qed.
 
 (* the ModelTree of an equivalent model is the original one renamed injectively *)
@@ -108,7 +108,7 @@ Theorem C08_ren_count : forall (V : Type) (s : nat -> nat) (n : node V),
 Proof. exact prior_count_ren. Qed.
 
 Theorem C08_ren_instance : forall (V : Type) (bin : binop -> V -> V -> V) (s : nat -> nat) (n : node V) (pv : list (path * V)),
-  wf V n -> inj_on s (prior_ids V n) -> inst_from_paths V bin (ren V s n) pv = inst_from_paths V bin n pv.
+  wf V n -> inj_on s (prior_ids V n) -> inst_from_paths V bin un (ren V s n) pv = inst_from_paths V bin un n pv.
 Proof. exact inst_from_paths_ren. Qed.
 
 (* ---- the pinned database form in general: parameter p comes back under its MESSAGE id mu p ---- *)
@@ -141,7 +141,7 @@ Theorem C08_db_arith : forall (V : Type) (cf : cfg) (bin : binop -> V -> V -> V)
   exists n', db_rt V cf n = Ok n' /\
              ordered_ids V (tree V n') = ordered_ids V (tree V n) /\
              prior_count V (tree V n') = prior_count V (tree V n) /\
-             inst_from_vector V bin (tree V n') vec = inst_from_vector V bin (tree V n) vec.
+             inst_from_vector V bin un (tree V n') vec = inst_from_vector V bin un (tree V n) vec.
 Proof. exact db_arith. Qed.
 
 (* models WITH arithmetic priors through dict/JSON: the reload succeeds, renames the parameters injectively,
@@ -150,7 +150,7 @@ Theorem C08_dict_arith : forall (V : Type) (bin : binop -> V -> V -> V) (falsy :
   forall_nodes V (dict_node_ok2 V falsy cf) n = true -> all_occs V (occ_ok V cf) n = true -> wf V (tree V n) ->
   exists n' s, dict_rt V falsy cf n = Ok n' /\ inj_on s (node_ids V n) /\
                prior_count V (tree V n') = prior_count V (tree V n) /\
-               forall a : nat -> option V, inst V bin a (tree V n') = inst V bin (fun q => a (s q)) (tree V n).
+               forall a : nat -> option V, inst V bin un a (tree V n') = inst V bin un (fun q => a (s q)) (tree V n).
 Proof. exact dict_arith. Qed.
 
 (* ---- models with arithmetic priors ANYWHERE: with the operands of every arithmetic prior put under the fixed
@@ -206,8 +206,8 @@ Proof. exact arith_names_refuted. Qed.
 
 Theorem C08_zero_prior_legacy_refuted :
   exists n n', dict_rt float ffalsy cfg_pinned n = Ok n' /\
-    ival_eqb (inst_from_paths float fbin (tree float n') [(["h"; "a"]%string, 0.5%float)])
-             (inst_from_paths float fbin (tree float n) [(["h"; "a"]%string, 0.5%float)]) = false.
+    ival_eqb (inst_from_paths float fbin funop (tree float n') [(["h"; "a"]%string, 0.5%float)])
+             (inst_from_paths float fbin funop (tree float n) [(["h"; "a"]%string, 0.5%float)]) = false.
 Proof. exact zero_prior_tuple_refuted. Qed.
 
 Theorem C08_zero_prior_extra_legacy_refuted :
